@@ -124,7 +124,8 @@ PROPS = {
     "C16": {
         "tags": ['C16', 'C01'],
         "runs": IMG_CORPUS + [{"cmd": "image-prefix-shrink", "mode": "image", "cases": {"quick": 1, "thorough": 1}, "corpus": True},
-                              {"cmd": "image-prefix-tail", "mode": "image", "cases": {"quick": 1, "thorough": 1}, "corpus": True}, dict(IMG_RUN)] + CRASH_IMAGES,
+                              {"cmd": "image-prefix-tail", "mode": "image", "cases": {"quick": 1, "thorough": 1}, "corpus": True},
+                              {"cmd": "image-branch-ops", "mode": "image", "cases": {"quick": 8, "thorough": 160}, "shards": {"quick": 8, "thorough": 16}}, dict(IMG_RUN)] + CRASH_IMAGES,
         "rule": IMG_RULE + CRASH_IMAGES_RULE,
         "trusted_base": IMG_TB, "assumptions": IMG_ASSUME,
     },
@@ -165,6 +166,7 @@ PROPS = {
         "runs": DB_SCN(["empty-store-delete-only", "overwrite-huge-value-with-rollback"]) + IMG_CORPUS + [
             {"cmd": "image-prefix-shrink", "mode": "image", "cases": {"quick": 1, "thorough": 1}, "corpus": True},
             {"cmd": "image-prefix-tail", "mode": "image", "cases": {"quick": 1, "thorough": 1}, "corpus": True},
+            {"cmd": "image-branch-ops", "cases": {"quick": 48, "thorough": 800}, "shards": {"quick": 8, "thorough": 16}},
             DB("kv", 160, 1600, nops=16, big=True),
             DB("kv", 6, 60, nops=20, big=True, scale=100, shards_q=6),
             DB("general", 80, 800, nops=14),
